@@ -56,17 +56,21 @@ Emit == Len(hist) = MaxCmds => PrintT(<<"HIST", hist>>)
 
 \* ---- part 2: init-config ----------------------------------------------------------------------
 Template == {"magic-numbers", "nesting", "srp", "dry", "file-placement", "print-statements", "stringly-typed",
-             "file-header", "method-property", "stateless-class", "pipeline", "lazy-ignores"}
+             "file-header", "method-property", "stateless-class", "pipeline", "lazy-ignores",
+             "performance", "unwrap-abuse", "clone-abuse", "blocking-async"}
 Hyphenated == {s \in Template : s \in {"magic-numbers", "file-placement", "print-statements", "stringly-typed",
-                                        "file-header", "method-property", "stateless-class", "lazy-ignores"}}
+                                        "file-header", "method-property", "stateless-class", "lazy-ignores",
+                                        "unwrap-abuse", "clone-abuse", "blocking-async"}}
 \* a user section: [name, spelling]; normalised identity is the name
 MissingA(user) == {s \in Template : ~\E u \in user : u.name = s}
 MissingB(user) == {s \in Template : ~\E u \in user : u.name = s /\ (u.spelling = "hyphen" \/ s \notin Hyphenated)}
 Missing(user) == IF ExactKeyMatch THEN MissingB(user) ELSE MissingA(user)
-UserCases == {u \in SUBSET {[name |-> n, spelling |-> sp] : n \in {"magic-numbers", "nesting", "srp", "dry"},
-                                                              sp \in {"hyphen", "underscore"}} :
+\* (sections from the front, the middle and the END of the template: what is appended for a missing section must
+\* not carry along copies of the sections that follow it)
+UserNames == {"magic-numbers", "nesting", "srp", "dry", "performance", "unwrap-abuse"}
+UserCases == {u \in SUBSET {[name |-> n, spelling |-> sp] : n \in UserNames, sp \in {"hyphen", "underscore"}} :
                  /\ \A a, b \in u : a.name = b.name => a = b
-                 /\ \A a \in u : a.spelling = "underscore" => a.name \in Hyphenated}
+                 /\ \A a \in u : a.spelling = "underscore" => a.name \in Hyphenated \ {"unwrap-abuse"}}
 \* requirement: init-config never re-declares a section the user already has
 NoRedeclare == \A u \in UserCases : \A x \in u : x.name \notin Missing(u)
 EmitUserCases == hist = <<>> => PrintT(<<"USERCASES", ToJson(UserCases)>>)
